@@ -255,7 +255,8 @@ def install_sim_threads():
 # different clocks, pids and listing orders, and one seed is one exactly repeatable environment.
 
 class SimEnv:
-    def __init__(self, seed: int):
+    def __init__(self, seed: int, frozen_clock: bool = False):
+        self.frozen_clock = frozen_clock  # a coarse clock: every reading inside the environment is the same instant
         self.rnd = random.Random(h64("process-env", seed))
         self.reads = {}
         self._saved = []
@@ -277,7 +278,8 @@ class SimEnv:
         tick = [0]
 
         def now():
-            tick[0] += 1
+            if not env.frozen_clock:
+                tick[0] += 1
             return t0 + tick[0] * 0.0137
 
         def clock(name, scale, as_int):
